@@ -5,8 +5,9 @@ import ast
 from typing import List, Optional
 
 from ..collect import callee_is, run_paths
-from ..common import calls_in, construct, where
+from ..common import ast_text_parts, with_helpers, calls_in, construct, where
 from ..flow import NONE, contains, show
+from ..fold import Folder, NotConst
 from ..loader import AnalysisError, FuncInfo, Program, walk_shallow
 from ..report import Report
 from .cookie_common import DS, emitted, extract_writer
@@ -169,9 +170,16 @@ def run(p: Program, rep: Report, tier: str) -> None:
     s = cookie.methods.get("__str__")
     rep.analysed(s.fq)
     gmt_fields = []
-    for c in calls_in(s):
-        if isinstance(c.func, ast.Attribute) and c.func.attr == "strftime" and c.args and isinstance(c.args[0], ast.Constant) and isinstance(c.args[0].value, str):
-            fmt = c.args[0].value
+    s_unit = with_helpers(p, s)  # __str__ and the private helpers that produce its pieces
+    _F16 = Folder(p)
+    for c in [c_ for f_ in s_unit for c_ in calls_in(f_)]:
+        if isinstance(c.func, ast.Attribute) and c.func.attr == "strftime" and c.args:
+            try:
+                fmt = _F16.fold(s.module, c.args[0])  # a literal or a module-level constant
+            except NotConst:
+                continue
+            if not isinstance(fmt, str):
+                continue
             recv = ast.unparse(c.func.value)
             if "GMT" in fmt or "UTC" in fmt or fmt.endswith("Z"):
                 gmt_fields.append((recv, fmt, c))
@@ -275,11 +283,12 @@ def run(p: Program, rep: Report, tier: str) -> None:
         rep.undecide("R16.3", "no path of set_cookie with expires given")
     # max-age line of __str__
     ok_ma = False
-    for n in ast.walk(s.node):
-        if isinstance(n, ast.JoinedStr):
-            t = ast.unparse(n)
-            if t.lower().startswith("f'max-age={self.max_age}'"):
-                ok_ma = True
+    for f_ in s_unit:
+        for n in ast.walk(f_.node):
+            if isinstance(n, (ast.JoinedStr, ast.BinOp, ast.Call)):
+                parts_ = ast_text_parts(p, s.module, n)
+                if parts_ and len(parts_) == 2 and parts_[0][0] == "const" and isinstance(parts_[0][1], str) and parts_[0][1].lower() == "max-age=" and parts_[1] == ("attr", ("param", "self"), "max_age"):
+                    ok_ma = True
     if ok_ma:
         rep.ok("R16.4", "serialised as max-age={self.max_age}")
     else:
